@@ -80,6 +80,11 @@ func mutexID(x ast.Expr) string {
 	return typeName(s.Recv()) + "." + s.Obj().Name()
 }
 
+// netIO: calls that perform an outbound network request and block until the peer answers
+var netIO = map[string]bool{"http.Post": true, "http.Get": true, "http.PostForm": true, "http.Head": true,
+	"http.Client.Do": true, "http.Client.Get": true, "http.Client.Post": true, "http.Client.PostForm": true, "http.Client.Head": true,
+	"net.Dial": true, "net.DialTimeout": true, "net.Dialer.Dial": true, "net.Dialer.DialContext": true}
+
 func calleeName(call *ast.CallExpr) string {
 	var id *ast.Ident
 	switch f := call.Fun.(type) {
@@ -158,6 +163,14 @@ func opsOf(n ast.Node, cur *fn, litNames map[*ast.FuncLit]string) []op {
 						ast.Inspect(a, func(ast.Node) bool { return true })
 					}
 				}
+			}
+			if c := calleeName(e); netIO[c] && !deferred {
+				// an outbound request: it may block for as long as the peer likes
+				for _, a := range e.Args {
+					out = append(out, opsOf(a, cur, litNames)...)
+				}
+				out = append(out, op{Kind: "netio", Arg: c, Pos: pos(e)})
+				return false
 			}
 			if c := calleeName(e); c != "" && !deferred {
 				// arguments first
